@@ -358,7 +358,8 @@ def execMultisig (cfg : Cfg) (rm : Bool) (verify : Bool) (st : St) : R St := do
       let nSigs := Model.getint (← numOf rm 4 ns)
       if nSigs < 0 || nSigs > nKeys then .error .SIG_COUNT
       let nSigs := nSigs.toNat
-      if s2.length < nSigs then .error .INVALID_STACK_OPERATION
+      -- the signatures AND the extra (dummy) element must be present before anything is checked
+      if s2.length < nSigs + 1 then .error .INVALID_STACK_OPERATION
       let sigs := s2.take nSigs
       let s3 := s2.drop nSigs
       let code ← deleteAll cfg sigs st.codeFrom
